@@ -331,7 +331,7 @@ func CheckC15(run *evid.Run) {
 
 func CheckC16(run *evid.Run) {
 	nh := pick(run.Tier, 400, 8000)
-	run.Rule = "pairs of replicas (forked, overlapping, one empty, identical) taken from seeded histories; for every bound n in 0..total+3 the history is replayed on fresh replicas (replay twin, identical hashes) and Join(other, n) is compared with the twin's unbounded Join: entry set = last min(n,total) of the unbounded value sequence, heads = unreferenced entries among them, values = that tail, n >= total identical to the unbounded result; runs under recover. When the ordering is not total on the merged set only count, subset and heads are compared. Non-trivial = both logs non-empty and different, and 0 < n < total or n > total; distinct = (pair shape digest, n class)"
+	run.Rule = "pairs of replicas (forked, overlapping, one empty, identical) taken from seeded histories; for every bound n in 0..total+3 the history is replayed on fresh replicas (replay twin, identical hashes) and Join(other, n) is compared with the twin's unbounded Join: entry set = last min(n,total) of the unbounded value sequence, heads = unreferenced entries among them, values = that tail, n >= total identical to the unbounded result; runs under recover; every other pair additionally as a SEQUENCE: the log already trimmed by Join(other,n1) is merged again (same source = an older snapshot of what it dropped, or another replica) for every n2, against the twin that does the second merge unbounded. When the ordering is not total on the merged set only count, subset and heads are compared. Non-trivial = both logs non-empty and different, and 0 < n < total or n > total; distinct = (pair shape digest, n class)"
 	parallel(nh, func(i int) {
 		rng := rand.New(rand.NewSource(run.Seed*4256233 + int64(i)))
 		h := hx.Gen(run.Seed, i, hx.GenOpts{MaxSteps: pick(run.Tier, 28, 50), Orders: []string{"hash", "default"}, MaxReplicas: 4})
